@@ -55,6 +55,12 @@ func genStress(t *rapid.T) Stress {
 	s.MaxTCP = rapid.SampledFrom([]int{-1, -1, 0, 0, 1, 2, 128}).Draw(t, "maxTCP")
 	if rapid.IntRange(0, 9).Draw(t, "tsig") < 4 {
 		s.TsigDelayUs = rapid.SampledFrom([]int{1, 20, 100, 300}).Draw(t, "tsigDelay")
+		// many signed datagrams in flight at once, large enough that walking them takes a while
+		s.Clients = rapid.IntRange(4, 12).Draw(t, "tsigClients")
+		s.Reqs = rapid.IntRange(3, 6).Draw(t, "tsigReqs")
+		if rapid.IntRange(0, 9).Draw(t, "tsigDgram") < 7 {
+			s.Transport = rapid.SampledFrom([]string{"memPacket", "memPacket", "realUDP", "lnsUDP"}).Draw(t, "tsigTransport")
+		}
 	}
 	if s.Restarts > 1 && rapid.IntRange(0, 9).Draw(t, "switch") < 6 {
 		// a Server value that served one transport is restarted on another one
@@ -164,6 +170,8 @@ func checkStress(s Stress) error {
 	r := &stressRun{s: s, nonce: newNonce()}
 	srv := &dns.Server{ReadTimeout: time.Hour, IdleTimeout: func() time.Duration { return time.Hour }, Handler: dns.HandlerFunc(r.handler), MaxTCPQueries: s.MaxTCP}
 	if s.TsigDelayUs > 0 {
+		srv.UDPSize = 4096
+		srv.MsgAcceptFunc = func(dns.Header) dns.MsgAcceptAction { return dns.MsgAccept } // nine additional records
 		srv.TsigProvider = slowProvider{key: []byte("stress secret"), delay: time.Duration(s.TsigDelayUs) * time.Microsecond}
 	}
 	overlapAny := false
@@ -340,6 +348,9 @@ func (r *stressRun) cycle(srv *dns.Server, cycle int) (overlap bool, err error) 
 				m := new(dns.Msg)
 				m.SetQuestion(fmt.Sprintf("q%d.c%d.y%d.%s.test.", q, j, cycle, r.nonce), dns.TypeTXT)
 				if s.TsigDelayUs > 0 {
+					for k := 0; k < 8; k++ { // ~2 KiB of additional records in front of the TSIG record
+						m.Extra = append(m.Extra, &dns.TXT{Hdr: dns.RR_Header{Name: "pad.", Rrtype: dns.TypeTXT, Class: dns.ClassINET}, Txt: []string{strings.Repeat("x", 250)}})
+					}
 					m.SetTsig(stressTsigKey, dns.HmacSHA256, 300, time.Now().Unix())
 				}
 				if co.WriteMsg(m) != nil {
